@@ -117,8 +117,25 @@ def _driver_proc():
     return _drv
 
 
+class DriverError(RuntimeError):
+    """the compiled Lean driver could not answer (killed, crashed): an infrastructure failure, never a property violation"""
+
+
 def run_driver(lines, timeout=1200):
-    """send request lines to the (persistent) compiled Lean driver, one answer line each"""
+    """send request lines to the (persistent) compiled Lean driver, one answer line each. A driver that dies is restarted
+    and the whole batch is sent again (every batch is self-contained: context lines such as `net …` precede their uses);
+    after three deaths on the same batch DriverError is raised."""
+    last = None
+    for attempt in range(3):
+        try:
+            return _run_driver_once(lines)
+        except DriverError as ex:
+            last = ex
+            time.sleep(0.2 * (attempt + 1))
+    raise last
+
+
+def _run_driver_once(lines):
     global _drv
     p = _driver_proc()
     out = []
@@ -129,8 +146,13 @@ def run_driver(lines, timeout=1200):
             for _ in part:
                 l = p.stdout.readline()
                 if l == '':
-                    raise RuntimeError(f'driver died (rc={p.poll()}) on request {lines[len(out)][:200]!r}')
+                    raise DriverError(f'driver died (rc={p.poll()}) on request {lines[len(out)][:200]!r}')
                 out.append(l.rstrip('\n'))
+    except OSError as ex:       # broken pipe: the driver went away while we were writing
+        try: p.kill()
+        except Exception: pass
+        _drv = None
+        raise DriverError(f'driver died ({type(ex).__name__}: {ex})')
     except Exception:
         try: p.kill()
         except Exception: pass
@@ -157,6 +179,7 @@ class Check:
         self.hist = collections.Counter()
         self.violations = []
         self.broken = []
+        self.infra = []         # infrastructure failures (driver killed / crashed after retries): exit 2, never a violation
         self.obligations = []   # (name, ok, axioms)
         self.notes = []
         self.extra = {}
@@ -177,6 +200,8 @@ class Check:
 
     def violation(self, cls, what, inp, observed=None, expected=None):
         """a concrete failing input against the real code. cls = class key for known_findings matching"""
+        if 'driver died' in str(observed) or 'DriverError' in str(observed):    # infrastructure, not the property
+            self.infra.append(str(observed)[:300]); return False
         for k in self.known:
             if k.get('status') == 'finding' and k.get('class') == cls:
                 self.known_hit.setdefault(cls, (k, what))
@@ -187,6 +212,8 @@ class Check:
         return True
 
     def broken_tie(self, name, detail, kind='broken-correspondence', inp=None):
+        if 'driver died' in str(detail) or 'DriverError' in str(detail):
+            self.infra.append(str(detail)[:300]); return
         if len(self.broken) < 20:
             self.broken.append({'kind': kind, 'name': name, 'detail': detail, 'input': inp})
 
@@ -282,6 +309,9 @@ class Check:
         os.makedirs(evdir, exist_ok=True)
         with open(os.path.join(evdir, f'{self.pid}.json'), 'w') as f:
             json.dump(ev, f, indent=1, default=str)
+        if self.infra and rc == 0:
+            rc = 2      # some cases could not be evaluated (driver killed / crashed three times in a row): neither pass nor violation
+            lines.append(f'[{self.pid}] harness error: {len(self.infra)} case(s) lost to infrastructure failures, first: {self.infra[0][:200]}')
         for l in lines: print(l)
         print(f'[{self.pid}] tier={self.tier} seed={self.seed} theorems={n_ok}/{n_ob} cases={self.evals} '
               f'distinct={len(self.distinct)} violations={len(self.violations)} broken={len(self.broken)} '
